@@ -1,5 +1,5 @@
 CONSTANT Cfgs <- CfgSet
 SPECIFICATION Spec
-INVARIANTS TypeOK ChannelOk WriteBound LineBound InnerBound
-PROPERTIES Rightward ScanRight
+INVARIANTS TypeOK ChannelOk WriteBound RefusedIdle LineBound InnerBound
+PROPERTIES Rightward ScanRight CfgFixed
 CHECK_DEADLOCK FALSE
